@@ -33,12 +33,16 @@ def sample_shapes(vectors, frac, seed):
         return (h[0] * 256 + h[1]) / 65536.0
     first = {}
     for v in vectors:
-        for a in (v["pa"], v["ra"]):
-            if gg.composed(a):
-                k = "/".join(gg.path_of(a))
-                r = (rank(v), gg.shape_key(v))
-                if k not in first or r < first[k]:
-                    first[k] = r
+        keys = ["/".join(gg.path_of(a)) for a in (v["pa"], v["ra"]) if gg.composed(a)]
+        # likewise the precision-sensitive numbers (PrecLeaf): every numeric kind and width, as a scalar and as a list
+        # element, in every location - outside the message numbers travel as text and are parsed back at a bit size
+        a = v["ra"] if v.get("fam") == "res" else v["pa"]
+        if gg.prec(v["rv"] if v.get("fam") == "res" else v["pv"]) and a["nest"] in ("direct", "elem") and not gg.composed(a):
+            keys.append("prec/%s%s/%s/%s" % (a["kind"], a["w"], a["loc"], a["nest"]))
+        for k in keys:
+            r = (rank(v), gg.shape_key(v))
+            if k not in first or r < first[k]:
+                first[k] = r
     forced = {r[1] for r in first.values()}
     return [v for v in vectors if rank(v) < frac or gg.shape_key(v) in forced]
 
